@@ -108,8 +108,8 @@ func reqWorkload(obj J, version string) (wl [3]string, present bool) {
 }
 
 // knownClass says whether a request falls into the input class of a listed finding. Every class is
-// a structural predicate over the request and the store (documented in findings/README of this
-// package); the first matching class wins.
+// a structural predicate over the request and the store (K1..K5 below; the minimal replays are in
+// findings/<sig>.json); the first matching class wins.
 func (w *world) knownClass(a Action) string {
 	if a.Kind != "create" && a.Kind != "update" {
 		return ""
@@ -534,6 +534,7 @@ func (w *world) checkHelpers(a Action, v view, storage J) {
 		_ = rand.SafeEncodeString(util.EncodeHash(data))
 	})
 	// the documented user-patchable next-step index, any int32, must come out corrected
+	uncorrected := ""
 	call("CheckNextBatchIndexWithCorrect", func() {
 		for cur := int32(0); cur <= n; cur++ {
 			for _, next := range []int32{math.MinInt32, -1, 0, 1, n, n + 1, math.MaxInt32} {
@@ -548,12 +549,15 @@ func (w *world) checkHelpers(a Action, v view, storage J) {
 				}
 				util.CheckNextBatchIndexWithCorrect(c)
 				got := c.Status.GetSubStatus().NextStepIndex
-				if !(got == -1 || (got >= 1 && got <= n)) {
-					w.fail("next-step-index-not-corrected", "CheckNextBatchIndexWithCorrect left nextStepIndex=%d (patched %d, current %d, %d steps)", got, next, cur, n)
+				if !(got == -1 || (got >= 1 && got <= n)) && uncorrected == "" {
+					uncorrected = fmt.Sprintf("CheckNextBatchIndexWithCorrect left nextStepIndex=%d (patched %d, current %d, %d steps)", got, next, cur, n)
 				}
 			}
 		}
 	})
+	if uncorrected != "" {
+		w.fail("next-step-index-not-corrected", "%s", uncorrected)
+	}
 	// harness self-check: the independent reading and the real accessors agree
 	want := map[string]v1beta1.RollingStyleType{"bluegreen": v1beta1.BlueGreenRollingStyle, "canary": v1beta1.CanaryRollingStyle, "partition": v1beta1.PartitionRollingStyle}[v.Style]
 	if style != want || len(steps) != v.NSteps || len(trs) != v.NTR {
